@@ -736,7 +736,12 @@ def geometry_tables(alg, active, want_pess, want_cov=True):
                 continue
             dom[i][j] = bool(is_dom(alg.order, regs[i], regs[j], sl["dom"]))
             if want_cov:
-                cov[i][j] = bool(is_cov(alg.order, regs[i], regs[j], sl["cov"]))
+                try:
+                    cov[i][j] = bool(is_cov(alg.order, regs[i], regs[j], sl["cov"]))
+                except ValueError:
+                    # rectangular is_covered rejects the N-entry slack ε·α when N ≠ m (known finding
+                    # rect-slack-per-facet): if the real step survived, it never evaluated such a pair
+                    cov[i][j] = False
             if want_pess:
                 pess[i][j] = bool(chk(alg.order, regs[i], regs[j]))
     return n, dom, cov, pess
@@ -859,7 +864,7 @@ def check_round(ctx, case, prop, alg, trace, rnd):
     if name == "Auer":
         return check_round_auer(ctx, case, prop, alg, ph, rnd)
     active = sorted(set(S0) | set(P0 if is_pess(name) else U0))
-    n, dom, cov, pess = geometry_tables(alg, active, is_pess(name))
+    n, dom, cov, pess = geometry_tables(alg, active, is_pess(name), want_cov=(prop != "C02"))
     ctx.count("geometry_pairs", len(active) * (len(active) - 1))
     ns, D, C, T = str(n), bits(dom), bits(cov), bits(pess)
     detail = {"round": rnd, "S": S0, "P": P0, "U": U0, "dom": D, "cov": C, "pess": T if is_pess(name) else None,
@@ -915,7 +920,10 @@ def check_round(ctx, case, prop, alg, trace, rnd):
             sl = stubs.expected_slack(alg)["cov"]
             for p in stale:
                 for s in S2:
-                    extra[s][p] = bool(is_cov(alg.order, regs[s], regs[p], sl))
+                    try:
+                        extra[s][p] = bool(is_cov(alg.order, regs[s], regs[p], sl))
+                    except ValueError:
+                        extra[s][p] = False
             mU = core.parse_nats(ctx.ask("useful", core.nats(S2), core.nats(P2), ns, bits(np.logical_or(cov, extra))))
         if U2 != mU:
             detail.update({"impl_U": U2, "model_U": mU})
